@@ -342,6 +342,10 @@ class Explorer:
                               else test.orelse, p)
         if isinstance(test, ast.Name) and test.id in p.env:
             return self.truth(p.env[test.id], p)
+        if isinstance(test, ast.Call) and isinstance(
+                test.func, ast.Name) and test.func.id == "bool" and len(
+                    test.args) == 1 and not test.keywords:
+            return self.truth(test.args[0], p)
         e = self.sym(test, p)
         if isinstance(e, (ast.BoolOp, ast.UnaryOp, ast.IfExp)) and not (
                 isinstance(e, ast.UnaryOp) and not isinstance(e.op, ast.Not)):
@@ -368,9 +372,34 @@ class Explorer:
         raise _NeedDecision(atom)
 
 
+def _never_none(e):
+    """the value of an arithmetic expression / a number conversion / a
+    literal container is not None"""
+    if isinstance(e, ast.BinOp):
+        return True
+    if isinstance(e, (ast.Tuple, ast.List, ast.Dict, ast.Set, ast.Lambda,
+                      ast.JoinedStr)):
+        return True
+    if isinstance(e, ast.Constant) and e.value is not None:
+        return True
+    if isinstance(e, ast.UnaryOp) and isinstance(
+            e.op, (ast.USub, ast.UAdd)):
+        return True
+    if isinstance(e, ast.Call) and isinstance(e.func, ast.Name) and \
+            e.func.id in ("int", "float", "abs", "str", "len", "list",
+                          "tuple", "dict", "set", "bool", "divmod"):
+        return True
+    return False
+
+
 def _const_truth(e):
     if isinstance(e, ast.Lambda):
         return True
+    if isinstance(e, ast.Compare) and len(e.ops) == 1 and isinstance(
+            e.ops[0], (ast.Is, ast.IsNot)) and isinstance(
+                e.comparators[0], ast.Constant) and \
+            e.comparators[0].value is None and _never_none(e.left):
+        return isinstance(e.ops[0], ast.IsNot)
     try:
         v = ast.literal_eval(e)
     except Exception:
